@@ -12,6 +12,8 @@ Bit(b) == IF b THEN 1 ELSE 0
 Pack(f) == [sl |-> [i \in 1 .. N |-> Bit(f.occ[i-1]) + 2 * Bit(f.cont[i-1]) + 4 * Bit(f.shift[i-1]) + 8 * f.rem[i-1]],
             n  |-> f.n]
 Emit(rec) == IF EMIT THEN PrintT(ToJson(rec)) ELSE TRUE
+\* property assertions are checked in E1 mode only; the generator must be able to emit every behaviour
+Chk(cond, msg) == IF EMIT THEN TRUE ELSE Assert(cond, msg)
 
 \* coverage predicates (evidence: which transitions exercise the hard paths)
 Moved(f, g)  == Cardinality({s \in Slots : (f.occ[s] \/ f.shift[s]) /\ (g.rem[s] # f.rem[s] \/ g.cont[s] # f.cont[s])})
@@ -29,9 +31,9 @@ Init == /\ a = Empty /\ sa = {}
         /\ Emit([k |-> "init", cfg |-> [q |-> Q, r |-> R], st |-> Pack(Empty)])
 
 InsertA(fp) == LET r == Insert(a, fp) IN
-    /\ Assert((r.res = "known") <=> (fp \in sa), "C13 insert reports known iff the class was inserted")
-    /\ Assert((r.res = "full") <=> (fp \notin sa /\ a.n = N), "C13 insert reports Full iff new class at capacity")
-    /\ Assert(r.res = "full" => r.f = a, "C12 failed insert leaves the filter unchanged")
+    /\ Chk((r.res = "known") <=> (fp \in sa), "C13 insert reports known iff the class was inserted")
+    /\ Chk((r.res = "full") <=> (fp \notin sa /\ a.n = N), "C13 insert reports Full iff new class at capacity")
+    /\ Chk(r.res = "full" => r.f = a, "C12 failed insert leaves the filter unchanged")
     /\ a' = r.f
     /\ sa' = IF r.res = "full" THEN sa ELSE sa \cup {fp}
     /\ Emit([k |-> "t", pre |-> Pack(a), op |-> [name |-> "ins", fp |-> fp], post |-> Pack(r.f),
